@@ -52,6 +52,27 @@ func genConnConc(r *Rng, tier string, p *Plan) *Plan {
 		}
 		return []string{"SET", k, Pick(r, defaultVals)}
 	}
+	if r.Chance(0.15) {
+		// SWAPDB next to connections that SELECT away from (or into) the swapped databases: on the pinned tree these
+		// serialise (both update the connection table under its lock), so the serial-order oracle applies in full
+		p.Knobs["clients"] = int64(nclients)
+		p.Knobs["cdb0"] = int64(r.Intn(len(connDBs)))
+		x, y := connDBs[r.Intn(len(connDBs))], connDBs[r.Intn(len(connDBs))]
+		p.Ops = append(p.Ops, Op{C: 0, Args: []string{"SWAPDB", x, y}})
+		p.Ops = append(p.Ops, Op{Kind: "marker", C: 0, Args: []string{"SET", "mark0", "0"}})
+		for c := 1; c < nclients; c++ {
+			// the other connections sit in one of the swapped databases
+			for j, d := range connDBs {
+				if d == Pick(r, []string{x, y}) {
+					p.Knobs[fmt.Sprintf("cdb%d", c)] = int64(j)
+				}
+			}
+			p.Ops = append(p.Ops, Op{C: c, Args: []string{"SELECT", Pick(r, append(connDBs, "7"))}})
+			p.Ops = append(p.Ops, Op{Kind: "marker", C: c, Args: []string{"SET", "mark" + strconv.Itoa(c), strconv.Itoa(c)}})
+		}
+		p.Dice = drawDice(r, 96)
+		return p
+	}
 	// one plan in four: every connection moves to the same database that does not exist yet, and writes there
 	fresh := ""
 	if r.Chance(0.25) {
@@ -90,7 +111,7 @@ func genConnConc(r *Rng, tier string, p *Plan) *Plan {
 			p.Ops = append(p.Ops, Op{C: c, Args: a})
 		}
 		// the marker: lands in whatever database the connection is in at the end
-		p.Ops = append(p.Ops, Op{C: c, Args: []string{"SET", "mark" + strconv.Itoa(c), strconv.Itoa(c)}})
+		p.Ops = append(p.Ops, Op{Kind: "marker", C: c, Args: []string{"SET", "mark" + strconv.Itoa(c), strconv.Itoa(c)}})
 	}
 	p.Dice = drawDice(r, 96)
 	return p
@@ -108,6 +129,9 @@ func hasCmd(ops []Op, name string) bool {
 // connCulprit names the connection-level commands of a plan (coarse signature component).
 func connCulprit(ops []Op) string {
 	if hasCmd(ops, "SWAPDB") {
+		if !swapdbExposed(ops) {
+			return "SWAPDB-vs-SELECT" // not what the recorded SWAPDB finding is about
+		}
 		return "SWAPDB"
 	}
 	var out []string
@@ -120,4 +144,27 @@ func connCulprit(ops []Op) string {
 		return "data"
 	}
 	return strings.Join(out, "+")
+}
+
+// swapdbExposed: does the concurrent phase of the plan hold a command that the recorded SWAPDB finding covers - a
+// command that reads its connection's database index at its start and uses it later (every data command, HELLO),
+// or a second SWAPDB? Plans in which SWAPDB only meets SELECT and flushes are serialisable on the pinned tree.
+func swapdbExposed(ops []Op) bool {
+	n := 0
+	for _, op := range ops {
+		if op.Kind == "marker" || len(op.Args) == 0 {
+			continue
+		}
+		switch strings.ToUpper(op.Args[0]) {
+		case "SELECT", "FLUSHALL":
+		case "SWAPDB":
+			n++
+			if n > 1 {
+				return true
+			}
+		default:
+			return true
+		}
+	}
+	return false
 }
